@@ -16,6 +16,14 @@ use super::{expand, TEv, TScenario};
 
 pub const BASE_EPOCH_S: u64 = 1_700_000_000;
 
+/// the scenario clock, for the tracker's hooked clock reads (H1) and for every other clock read
+/// on this thread (`crate::vclock`, std build of the simulator only)
+#[cfg(not(feature = "alloc_only"))]
+fn set_clock(t_ns: u64) {
+    crate::vclock::set(t_ns);
+    rsadsb_common::verif_clock::set(vt(t_ns));
+}
+
 pub fn vt(t_ns: u64) -> SystemTime {
     SystemTime::UNIX_EPOCH + Duration::from_secs(BASE_EPOCH_S) + Duration::from_nanos(t_ns)
 }
@@ -199,6 +207,8 @@ fn track_positions(st: &AirplaneState) -> Vec<Position> {
 }
 
 pub fn execute(sc: &TScenario, mask: Mask) -> Outcome {
+    #[cfg(not(feature = "alloc_only"))]
+    let _clock = crate::vclock::Guard;
     let mut out = Outcome::default();
     let mut h = Fnv::new();
     let rx = (sc.lat, sc.lon);
@@ -264,7 +274,7 @@ fn run(sc: &TScenario, mask: Mask, rx: (f64, f64), out: &mut Outcome, h: &mut Fn
         out.virtual_ns = out.virtual_ns.max(t);
         out.steps += 1;
         #[cfg(not(feature = "alloc_only"))]
-        rsadsb_common::verif_clock::set(vt(t));
+        set_clock(t);
         match ev {
             TEv::Frame { hex, note, .. } => {
                 for n in note.split(',') {
@@ -909,7 +919,7 @@ fn isolation_replay(events: &[TEv], max_range: f64, rx: (f64, f64), tr: &Airplan
                 TEv::Prune { t, secs } => {
                     #[cfg(not(feature = "alloc_only"))]
                     {
-                        rsadsb_common::verif_clock::set(vt(*t));
+                        set_clock(*t);
                         solo.prune(*secs);
                     }
                     let _ = (t, secs);
@@ -918,7 +928,7 @@ fn isolation_replay(events: &[TEv], max_range: f64, rx: (f64, f64), tr: &Airplan
                     if it.peek() == Some(&&i) {
                         it.next();
                         #[cfg(not(feature = "alloc_only"))]
-                        rsadsb_common::verif_clock::set(vt(*t));
+                        set_clock(*t);
                         let _ = t;
                         if let Ok(f) = Frame::from_bytes(&wire::unhex(hex)) {
                             let _ = solo.action(f, rx, max_range);
